@@ -175,6 +175,11 @@ fn oracle_self_check() {
 	}
 }
 
+fn bail(wd: &Workdir, msg: &str) -> ! {
+	wd.cleanup();
+	cli::die(msg)
+}
+
 fn main() {
 	let args = cli::parse();
 	mc_common::par::install_quiet_panic_hook();
@@ -220,7 +225,7 @@ fn main() {
 			});
 		}
 		if out.stats.crash_images_with_lost_lazy == 0 || out.stats.images_differing_from_no_loss == 0 || out.stats.faulted_runs == 0 {
-			cli::die("vacuity: faultstore self-test never built an image with a lost lazy removal that mattered / never injected a fault");
+			bail(&wd, "vacuity: faultstore self-test never built an image with a lost lazy removal that mattered / never injected a fault");
 		}
 		let mut j = out.stats.to_json();
 		j["sequence_length"] = json!(len);
@@ -283,7 +288,7 @@ fn main() {
 			total.merge(&out.stats);
 		}
 		if total.reads_with_data == 0 || total.reads_not_found == 0 || total.lists_nonempty == 0 || total.removes_of_present == 0 || total.overwrites == 0 {
-			cli::die("vacuity: the sequential part never read data / never hit NotFound / never listed a key / never removed or overwrote an existing key");
+			bail(&wd, "vacuity: the sequential part never read data / never hit NotFound / never listed a key / never removed or overwrote an existing key");
 		}
 		ev.set(
 			"a_sequential",
@@ -324,7 +329,7 @@ fn main() {
 		let (st, viols) = xplore::explore(&scns, &cfg, &wd);
 		if !st.det_mismatch.is_empty() {
 			wd.cleanup();
-			cli::die(&format!("NONDETERMINISM or harness failure: {}", st.det_mismatch.join(" || ")));
+			bail(&wd, &format!("NONDETERMINISM or harness failure: {}", st.det_mismatch.join(" || ")));
 		}
 		for v in &viols {
 			let scn = &scns[v.scn];
@@ -358,19 +363,19 @@ fn main() {
 		capped_any |= st.capped;
 		// vacuity guards
 		if st.interleaved == 0 {
-			cli::die("vacuity: in no schedule did two threads' critical sections on the same key interleave at the filesystem level");
+			bail(&wd, "vacuity: in no schedule did two threads' critical sections on the same key interleave at the filesystem level");
 		}
 		if st.final_states.len() < 2 {
-			cli::die("vacuity: fewer than two distinct final directory states");
+			bail(&wd, "vacuity: fewer than two distinct final directory states");
 		}
 		if pol.faults && cfg.max_faults > 0 && k > 0 && st.faulted == 0 {
-			cli::die("vacuity: no filesystem step failure was ever injected");
+			bail(&wd, "vacuity: no filesystem step failure was ever injected");
 		}
 		if st.bound_completed.is_none() {
-			cli::die("the wall cap hit before even the preemption-free schedules were done");
+			bail(&wd, "the wall cap hit before even the preemption-free schedules were done");
 		}
 		if k >= 1 && st.preempted_by_kind.is_empty() {
-			cli::die("vacuity: no preemption was ever taken");
+			bail(&wd, "vacuity: no preemption was ever taken");
 		}
 		let fam: Value = st
 			.per_family
